@@ -343,6 +343,29 @@ pub fn pair_cases(tier: Tier) -> Vec<super::h2pair::PairCase> {
                 c.upload_frame = 5000;
                 v.push(c);
             }
+            // the client retunes SETTINGS_INITIAL_WINDOW_SIZE in the middle of a download, from a value
+            // that is not the protocol default: the open stream's window moves by new - old
+            for (w0, w1, after, pace) in [(1000u32, 30000u32, 1000usize, None), (30000, 65535, 30000, None), (200_000, 70_000, 50_000, Some(5000usize)), (1_000_000, 100_000, 20_000, Some(5000))] {
+                let mut c = PairCase::simple(front, back, vec![x(0, 300000)]);
+                c.initial_window = Some(w0);
+                c.shrink_window_to = Some(w1);
+                c.shrink_after_bytes = Some(after);
+                c.pace_front = pace;
+                c.huge_conn_window = pace.is_some();
+                c.family = Some("window-retuned-mid-download".into());
+                v.push(c);
+            }
+            // a slow client with wide windows pings in the middle of a download: sozu is inside a
+            // DATA frame (the TLS layer took a part of it) when the PING arrives
+            for pace in [5000usize, 700] {
+                let mut c = PairCase::simple(front, back, vec![x(0, 300000)]);
+                c.initial_window = Some(1_000_000);
+                c.huge_conn_window = true;
+                c.pace_front = Some(pace);
+                c.ping_after_bytes = Some(20_000);
+                c.family = Some("ping-mid-download".into());
+                v.push(c);
+            }
             let mut c = PairCase::simple(front, back, vec![x(50000, 9)]);
             c.upload_frame = 1;
             c.xfers[0].up = 300;
